@@ -203,6 +203,11 @@ func Load(cfg LoadCfg) (*Ctx, error) {
 		dropUnreferencedNewFuncs(c, known)
 	}
 	markNewFuncs(c, known)
+	if os.Getenv("FPCHECK_DEBUG_NOTES") != "" {
+		for _, n := range c.InlineNotes {
+			fmt.Fprintln(os.Stderr, "NOTE:", n)
+		}
+	}
 	return c, nil
 }
 
